@@ -383,6 +383,10 @@ class Backend(ABC):
         if not all([isinstance(arg.value, (SigmaString, SigmaNumber)) for arg in args]):
             return False
 
+        # Case-sensitive strings can't be expressed by the (case-insensitive) in-expression
+        if any(isinstance(arg.value, SigmaCasedString) for arg in args):
+            return False
+
         # Check for plain strings if wildcards are not allowed for string expressions.
         if not self.in_expressions_allow_wildcards and any(
             [arg.value.contains_special() for arg in args if isinstance(arg.value, SigmaString)]
